@@ -4,8 +4,9 @@ histories on a reused parser object; frame scan for the configuration attributes
 
 def bounded(tier, seed, info):
     from bounded.bC09 import run
+    from bounded.bCfg import run as run_cfg
     from bounded.bHist import run_parser_histories
-    return run(tier, seed, info) + run_parser_histories('C09', tier, seed)
+    return run(tier, seed, info) + run_parser_histories('C09', tier, seed) + run_cfg('C09', tier, seed)
 
 
 def lemmas(world, reg, tier):
